@@ -489,6 +489,60 @@ theorem inferDims_standard (layers m0 m1 n0 n1 : Nat) (times samples : Option Na
       ([], []) (by rw [hent]; rfl) (by simp)
     rwa [hpre0] at this
 
+/-- the other collision: when the nodal shape equals the modal shape, axes cannot be told apart by
+ shape and the later assignment wins — every 3-d array is labelled `(level, lon, lat)` (also modal
+ data), every 2-d array `(longitudinal_mode, total_wavenumber)` (also nodal data), silently -/
+theorem inferDims_modal_eq_nodal_collision (layers a b : Nat) (times samples : Option Nat) (hL : layers ≠ 1) :
+    let c : DimCfg := ⟨layers, [a, b], [a, b], [], times, samples⟩
+    let pre := samples.toList ++ times.toList
+    let preN := (samples.map fun _ => "sample").toList ++ (times.map fun _ => "time").toList
+    inferDims c (pre ++ [layers, a, b]) = .ok (some (preN ++ ["level", "lon", "lat"])) ∧
+    inferDims c (pre ++ [a, b]) = .ok (some (preN ++ ["longitudinal_mode", "total_wavenumber"])) ∧
+    inferDims c (pre ++ [1, a, b]) = .ok (some (preN ++ ["surface", "lon", "lat"])) := by
+  intro c pre preN
+  have hws : withSurface c = ⟨layers, [a, b], [a, b], [("surface", 1)], times, samples⟩ := by
+    simp [withSurface, c, hL]
+  have hent : entries (withSurface c) =
+      [([], []), ([layers, a, b], ["level", "longitudinal_mode", "total_wavenumber"]),
+        ([layers, a, b], ["level", "lon", "lat"]), ([a, b], ["lon", "lat"]),
+        ([a, b], ["longitudinal_mode", "total_wavenumber"]), ([1, a, b], ["lon", "lat"]),
+        ([1, a, b], ["surface", "longitudinal_mode", "total_wavenumber"]),
+        ([1, a, b], ["surface", "lon", "lat"]), ([1], ["surface"])] := by
+    rw [hws]
+    simp [entries, baseEntries, addlTriples, modalNames, nodalNames]
+  have hok : ∀ x ∈ (withSurface c).addl, x.1 ≠ "realization" → x.2 ≠ c.layers := by
+    rw [hws]
+    intro x hx _
+    simp only [List.mem_singleton] at hx
+    subst hx
+    exact fun h => hL h.symm
+  have key := (inferDims_no_collision c).2 hok
+  have hpre : ∀ e : List Nat × List String, prefixed c e = (pre ++ e.1, preN ++ e.2) := by
+    intro e
+    simp only [prefixed, hws]
+    have : (List.any [("surface", 1)] fun x => x.1 == "realization") = false := by decide
+    rw [this, withPrefix_noreal]
+  have hL' : ¬ (1 = layers) := fun h => hL h.symm
+  refine ⟨?_, ?_, ?_⟩
+  · have := key [([], []), ([layers, a, b], ["level", "longitudinal_mode", "total_wavenumber"])]
+      [([a, b], ["lon", "lat"]), ([a, b], ["longitudinal_mode", "total_wavenumber"]), ([1, a, b], ["lon", "lat"]),
+        ([1, a, b], ["surface", "longitudinal_mode", "total_wavenumber"]), ([1, a, b], ["surface", "lon", "lat"]),
+        ([1], ["surface"])]
+      ([layers, a, b], ["level", "lon", "lat"]) (by rw [hent]; rfl) (by simp [hL'])
+    rwa [hpre] at this
+  · have := key [([], []), ([layers, a, b], ["level", "longitudinal_mode", "total_wavenumber"]),
+        ([layers, a, b], ["level", "lon", "lat"]), ([a, b], ["lon", "lat"])]
+      [([1, a, b], ["lon", "lat"]), ([1, a, b], ["surface", "longitudinal_mode", "total_wavenumber"]),
+        ([1, a, b], ["surface", "lon", "lat"]), ([1], ["surface"])]
+      ([a, b], ["longitudinal_mode", "total_wavenumber"]) (by rw [hent]; rfl) (by simp)
+    rwa [hpre] at this
+  · have := key [([], []), ([layers, a, b], ["level", "longitudinal_mode", "total_wavenumber"]),
+        ([layers, a, b], ["level", "lon", "lat"]), ([a, b], ["lon", "lat"]),
+        ([a, b], ["longitudinal_mode", "total_wavenumber"]), ([1, a, b], ["lon", "lat"]),
+        ([1, a, b], ["surface", "longitudinal_mode", "total_wavenumber"])]
+      [([1], ["surface"])] ([1, a, b], ["surface", "lon", "lat"]) (by rw [hent]; rfl) (by simp)
+    rwa [hpre] at this
+
 /-- **known finding**: with a single layer the 3-d nodal shape `(1, lon, lat)` is the surface shape;
  for every set of additional coordinates and every `sample` / `time` / `realization` prefix the
  lookup either raises or returns names `(…, lon, lat)` — one name fewer than the array has axes, so
